@@ -529,6 +529,19 @@ extend('C03',
        'The word / suffix / CJK regexes and BaseMergedNumberExtractor stay monitored only; the full extract theorems carry '
        'the hypothesis QuietAt (no negative term ends at the literal, no ambiguity-filter match meets it), shown satisfiable.')
 
+extend('C04',
+       'ROUND 3 (above 1000) — spanish_cardinal, german_cardinal, dutch_cardinal: for EVERY n < 10^15, __get_int_value on '
+       'the tokens of the written-out form (spellHuge: scale nouns up to 10^12, long-scale Spanish "mil millones", apocope and '
+       'feminine multipliers, German "eine million") returns n; portuguese_cardinal_partial: the same except numerals ending '
+       'in "... e mil" (witness "um milhao e mil" -> 1000000, recorded). The proof is an induction over the scale-word list '
+       'through the round-number step (nothing enumerated above 999; multiplier facts and the scale-word table are '
+       'kernel-evaluated on the REGENERATED maps, so a changed map entry breaks the obligation). The same generator feeds '
+       'the harness every run (tokenisation tie, implementation vs model vs n, recognize_number alone and in a carrier).',
+       'French / Italian above 10^6 and the ordinals of the European cultures remain pipeline-only in this revision.')
+extend('C13',
+       'ROUND 3 — the pipeline generator also emits URLs with "!" in the path (hashbang routes) and phone numbers with the '
+       '"00" exit code or an "x" extension (several patterns match a prefix of these: the longest match must win).')
+
 ALL_IDS = ['C%02d' % i for i in range(1, 21)]
 PENDING = 'check not built yet in this revision (work in progress; see DESIGN.md §8 build order)'
 
